@@ -563,6 +563,26 @@ func escapedListsImmutable(p *Prog, ls *Lockset, r *Report, rule string, onlyOwn
 			if v, ok := a.Ins.(ssa.Value); ok && flowsToReturn(v) {
 				handedOut = true
 			}
+			// the header leaves its critical section: loaded under a lock of the object and used (ranged, indexed,
+			// measured) at an instruction where that lock is no longer held
+			if v, ok := a.Ins.(ssa.Value); ok && !handedOut && v.Referrers() != nil {
+				for lname := range a.heldOnSameObject() {
+					for _, ref := range *v.Referrers() {
+						if _, isStore := ref.(*ssa.Store); isStore {
+							continue
+						}
+						stillHeld := false
+						for lp := range ls.At(ref) {
+							if lastComp(lp) == lname {
+								stillHeld = true
+							}
+						}
+						if !stillHeld && ref.Block() != nil {
+							handedOut = true
+						}
+					}
+				}
+			}
 			if handedOut {
 				esc = &ls.Accesses[key][i]
 				fld = a.Field
@@ -591,12 +611,20 @@ func escapedListsImmutable(p *Prog, ls *Lockset, r *Report, rule string, onlyOwn
 					case *ssa.Call:
 						callee := x.Call.StaticCallee()
 						if callee == nil {
+							// append to a reslice of the field (field[:0], field[:n]) reuses and overwrites its backing array
+							if builtinName(&x.Call) == "append" && len(x.Call.Args) > 0 {
+								if rs := resliceOfField(x.Call.Args[0], fld, 0); rs {
+									bad++
+									r.Fail(rule, fmt.Sprintf("field:%s|fn:%s|append-to-reslice", key, FnName(originOf(fn))), p.InstrPos(x), fmt.Sprintf("append to a reslice of %s overwrites its backing array in place, but the slice header leaves the critical section in %s: a reader still iterating the old header sees shifted elements", key, FnName(esc.Fn)))
+								}
+							}
 							if builtinName(&x.Call) == "copy" && len(x.Call.Args) == 2 && loadsField(x.Call.Args[0], fld) {
 								bad++
 								r.Fail(rule, fmt.Sprintf("field:%s|fn:%s|copy-into", key, FnName(originOf(fn))), p.InstrPos(x), fmt.Sprintf("copy writes into the backing array of %s, which %s hands out", key, FnName(esc.Fn)))
 							}
 							continue
 						}
+						_ = callee
 						if set := inPlaceRoutines[fnPkgPath(callee)]; set != nil && set[originName(callee)] && len(x.Call.Args) > 0 && loadsField(x.Call.Args[0], fld) {
 							bad++
 							r.Fail(rule, fmt.Sprintf("field:%s|fn:%s|%s.%s", key, FnName(originOf(fn)), fnPkgPath(callee), originName(callee)), p.InstrPos(x), fmt.Sprintf("%s.%s works in place on the backing array of %s, but %s hands the slice header out to callers that iterate it without the lock: a concurrent reader sees shifted or zeroed elements", fnPkgPath(callee), originName(callee), key, FnName(esc.Fn)))
@@ -633,6 +661,28 @@ func flowsToReturn(v ssa.Value) bool {
 					}
 				}
 			}
+		}
+	}
+	return false
+}
+
+// resliceOfField: v is field[a:b] (possibly through a phi of an accumulating loop).
+func resliceOfField(v ssa.Value, fld *types.Var, depth int) bool {
+	if depth > 6 {
+		return false
+	}
+	switch x := v.(type) {
+	case *ssa.Slice:
+		return loadsField(x.X, fld)
+	case *ssa.Phi:
+		for _, e := range x.Edges {
+			if e != v && resliceOfField(e, fld, depth+1) {
+				return true
+			}
+		}
+	case *ssa.Call:
+		if builtinName(&x.Call) == "append" && len(x.Call.Args) > 0 {
+			return resliceOfField(x.Call.Args[0], fld, depth+1)
 		}
 	}
 	return false
